@@ -280,13 +280,8 @@ func init() {
 		Units: func(tier string) (units []eng.Unit) {
 			for _, c := range c14Colls() {
 				c := c
-				var built *c14Built
-				get := func() *c14Built {
-					if built == nil {
-						built = c.measure()
-					}
-					return built
-				}
+				built := c.measure() // eager, fixed order: same sizes in every process
+				get := func() *c14Built { return built }
 				for _, forever := range []bool{false, true} {
 					forever := forever
 					mode := "once"
@@ -297,7 +292,7 @@ func init() {
 						N:    func() int { return get().nCalls + 2 },
 						Case: func(i int) (string, bool, any, []eng.Violation) { return get().run(true, i, forever) }})
 					units = append(units, &eng.FlatSpec{UnitName: c.name + "/byte-budget/" + mode, Prop: "C14", Chunk: 32, Outcomes: true,
-						N:    func() int { return get().nBytes + 2 },
+						N:    func() int { return get().nBytes + 8 },
 						Case: func(i int) (string, bool, any, []eng.Violation) { return get().run(false, i, forever) }})
 				}
 			}
